@@ -150,6 +150,9 @@ func VerifLoopReady() bool {
 func VerifClusterChanLen() int { return len(EngineGlobal.clusterChan) }
 func VerifServerChanged() bool { return EngineGlobal.ClusterNodes.serverChanged }
 
+// VerifLastServerNames returns the refresher's record of the topology it parsed last (what isChanged compares with).
+func VerifLastServerNames() string { return EngineGlobal.ClusterNodes.lastServerNames }
+
 // VerifPollFds returns the epoll fd and the wake-up eventfd of the loop's poller.
 func VerifPollFds() (int, int) { return EngineGlobal.eng.el.poller.VerifFds() }
 
